@@ -1,5 +1,254 @@
-(* Props/C17.v -- placeholder while the correspondence is being brought up *)
-From LV Require Import Base.Bytes Model.Obj Model.Outline Model.Toc.
-Theorem C17_placeholder : title_bytes [] = [].
-Proof. reflexivity. Qed.
-Print Assumptions C17_placeholder.
+(* Props/C17.v -- property C17: bookmarks become a well-formed outline that reads back.
+   Statements only; proofs live in Proofs/OutlineProofs*.v.
+
+   Vocabulary (Spec/OutlineSpec.v): [forest_of_ops] is the forest a sequence of add_bookmark calls
+   denotes (k-th call = bookmark k; child of p iff p was added before; otherwise attached nowhere);
+   [trepr tbl t]: the bookmark table holds tree t; [numbered m f f' m']: f' is f with object
+   numbers m+1, m+2 (item, action) handed out in preorder; [outline_ok get root f']: the objects
+   hold the outline of f' (Parent/Prev/Next/First/Last/Count/Title/A/F of every item, S and D of
+   every action, First/Last/Count of the root); [preorder f]: (level = depth+1, title, page).
+
+   Known finding C17-deep-outline: get_outlines nests First links at most OUTLINE_DEPTH_LIMIT deep,
+   so a forest higher than OUTLINE_DEPTH_LIMIT + 1 levels is built correctly but does not read
+   back ([too_deep], [C17_too_deep_witness]); the read-back theorems exclude exactly that class. *)
+From LV Require Import Base.Bytes Model.Obj Model.DocQ Model.PageTree Model.Outline Model.Toc Gen.QueryC
+  Spec.OutlineSpec Proofs.OutlineProofs Proofs.OutlineProofsTitle Proofs.OutlineProofsRead
+  Proofs.OutlineProofsOps Proofs.OutlineProofsMain Proofs.OutlineProofsReload Proofs.OutlineProofsProps.
+
+Local Open Scope N_scope.
+
+(* (0) Any sequence of add_bookmark calls leaves the table holding the forest the calls denote:
+   roots and children in insertion order under the right parent; [default_fuel] is the call count + 1. *)
+Theorem C17_forest_of_calls :
+  forall d ops,
+    let b := add_all (fresh_bdoc d) ops in
+    let f := forest_of_ops (map sop_of ops) in
+    base b = d /\ bookmarks b = map iid f /\ Forall (trepr (bookmark_table b)) f /\
+    default_fuel b = S (length ops).
+Proof. exact add_all_repr. Qed.
+
+(* orphans: a call whose parent id is 0, its own id or a later id is neither a root nor a child of
+   any bookmark of the denoted forest, hence appears nowhere in (1)-(5) *)
+Theorem C17_orphans_ignored :
+  forall (ops : list sop) k d p,
+    In (k, (d, Some p)) (index_from 1 ops) -> (p = 0 \/ k <= p) ->
+    is_root (k, (d, Some p)) = false /\
+    forall e, In e (index_from 1 ops) -> is_child_of (fst e) (k, (d, Some p)) = false.
+Proof. exact orphan_nowhere. Qed.
+
+(* (1) Links: First/Last/Next/Prev/Parent (and Count) of the created objects are those of the
+   numbered forest -- mutually consistent, siblings in insertion order under the right parent.
+   No hypothesis on titles, targets or depth; fuel = height of the forest suffices; the result is
+   never a panic or out-of-fuel unless an object number would pass 2^32. *)
+Theorem C17_outline_links_consistent :
+  forall b f fuel,
+    bookmarks b = map iid f -> f <> [] ->
+    Forall (trepr (bookmark_table b)) f ->
+    (fheight f <= fuel)%nat ->
+    let m0 := d_max_id (base b) in
+    let m' := m0 + 1 + 2 * N.of_nat (fsize f) in
+    m' < U32_LIMIT ->
+    exists f' b',
+      numbered (m0 + 1) f f' m' /\
+      build_outline fuel b = OOk (Some (m0 + 1, 0), b') /\
+      d_max_id (base b') = m' /\
+      d_trailer (base b') = d_trailer (base b) /\
+      outline_ok (get_of (d_objects (base b'))) (m0 + 1) f' /\
+      (forall id, ~ created m0 m' id -> lookup (d_objects (base b')) id = lookup (d_objects (base b)) id) /\
+      (forall id, created m0 m' id -> exists d, lookup (d_objects (base b')) id = Some (ODict d)).
+Proof. exact build_outline_ok. Qed.
+
+(* (2) Fresh identifiers: the root gets max_id+1, items and actions max_id+2 .. in preorder, all
+   above the old max_id and pairwise distinct; max_id is updated; nothing else changes. *)
+Theorem C17_outline_ids_fresh :
+  forall b f fuel,
+    bookmarks b = map iid f -> f <> [] ->
+    Forall (trepr (bookmark_table b)) f ->
+    (fheight f <= fuel)%nat ->
+    let m0 := d_max_id (base b) in
+    let m' := m0 + 1 + 2 * N.of_nat (fsize f) in
+    m' < U32_LIMIT ->
+    exists f' b',
+      numbered (m0 + 1) f f' m' /\
+      build_outline fuel b = OOk (Some (m0 + 1, 0), b') /\
+      (m0 + 1) :: flat_map oids f' = nseq (m0 + 1) (S (2 * fsize f)) /\
+      NoDup ((m0 + 1) :: flat_map oids f') /\
+      Forall (fun k => m0 < k) ((m0 + 1) :: flat_map oids f') /\
+      d_max_id (base b') = m' /\
+      (forall id, ~ created m0 m' id -> lookup (d_objects (base b')) id = lookup (d_objects (base b)) id) /\
+      (forall id, created m0 m' id -> exists d, lookup (d_objects (base b')) id = Some (ODict d)).
+Proof. exact outline_ids_fresh. Qed.
+
+(* (3) Titles and destinations of every item; the title bytes decode (with get_toc's decoder) to
+   the very string, for every string of Unicode scalar values. *)
+Theorem C17_titles_and_dests :
+  forall b f fuel,
+    bookmarks b = map iid f -> f <> [] ->
+    Forall (trepr (bookmark_table b)) f ->
+    (fheight f <= fuel)%nat ->
+    let m0 := d_max_id (base b) in
+    let m' := m0 + 1 + 2 * N.of_nat (fsize f) in
+    m' < U32_LIMIT ->
+    exists f' b',
+      numbered (m0 + 1) f f' m' /\
+      build_outline fuel b = OOk (Some (m0 + 1, 0), b') /\
+      Forall (item_carries (get_of (d_objects (base b')))) (flat_map onodes f').
+Proof. exact titles_and_dests. Qed.
+
+Theorem C17_title_any_unicode :
+  forall s, Forall scalar s -> decode_title (title_bytes s) = Some s.
+Proof. exact decode_title_bytes. Qed.
+
+(* (4) Reading back.  add_bookmark calls, build_outline, the README's attach step, get_toc:
+   the table of contents is the preorder of the denoted forest -- same titles, level = depth + 1,
+   page numbers of the targets in the document that is read, in the same order, no error entry.
+   Fuel: the builder needs call count + 1, the reader one unit per bookmark (both recursions
+   terminate on the builder's output).
+   Hypotheses: max_id bounds the object numbers (meaning of the field); object numbers stay below
+   2^32; trailer.Root leads to a catalog dictionary without name trees (get_named_destinations is
+   C13's); titles distinct and made of scalar values (Rust String); the forest is not in the known
+   class [too_deep].  [targets_are_pages]: every target is a page of the document. *)
+Theorem C17_reads_back :
+  forall d ops cid rid cat fuel2,
+    let b := add_all (fresh_bdoc d) ops in
+    let f := forest_of_ops (map sop_of ops) in
+    let m0 := d_max_id d in
+    f <> [] ->
+    max_id_bounds d ->
+    m0 + 1 + 2 * N.of_nat (fsize f) < U32_LIMIT ->
+    root_id d = Some cid ->
+    get_object_mut_id (d_objects d) cid = Some (rid, ODict cat) ->
+    no_name_trees cat ->
+    distinct_titles f -> scalar_titles f ->
+    too_deep f = false ->
+    (fsize f <= fuel2)%nat ->
+    exists b',
+      build_outline (default_fuel b) b = OOk (Some (m0 + 1, 0), b') /\
+      let d2 := attach (base b') cid (m0 + 1, 0) in
+      (targets_are_pages d2 f -> get_toc fuel2 d2 = TOk (expected_toc d2 f) 0).
+Proof.
+  intros d ops cid rid cat fuel2 b f m0 H1 H2 H3 H4 H5 H6 H7 H8 H9 H10.
+  apply (reads_back_ops d ops cid rid cat fuel2); try assumption.
+  apply N.ltb_ge. exact H9.
+Qed.
+
+(* the same over any table that holds a forest (e.g. after adjust_zero_pages changed the pages) *)
+Theorem C17_reads_back_forest :
+  forall b f cid rid cat fuel fuel2,
+    bookmarks b = map iid f -> f <> [] ->
+    Forall (trepr (bookmark_table b)) f ->
+    let d := base b in
+    let m0 := d_max_id d in
+    max_id_bounds d ->
+    m0 + 1 + 2 * N.of_nat (fsize f) < U32_LIMIT ->
+    root_id d = Some cid ->
+    get_object_mut_id (d_objects d) cid = Some (rid, ODict cat) ->
+    no_name_trees cat ->
+    distinct_titles f -> scalar_titles f ->
+    too_deep f = false ->
+    (fheight f <= fuel)%nat ->
+    (fsize f <= fuel2)%nat ->
+    exists b',
+      build_outline fuel b = OOk (Some (m0 + 1, 0), b') /\
+      let d2 := attach (base b') cid (m0 + 1, 0) in
+      (targets_are_pages d2 f -> get_toc fuel2 d2 = TOk (expected_toc d2 f) 0).
+Proof.
+  intros b f cid rid cat fuel fuel2 H1 H2 H3 d m0 H4 H5 H6 H7 H8 H9 H10 H11 H12 H13.
+  apply (reads_back_forest b f cid rid cat fuel fuel2); try assumption.
+  apply N.ltb_ge. exact H11.
+Qed.
+
+(* (5) Also after saving and reloading: composition with C01.  C01's statement enters as the three
+   premises about d' (the reloaded document): same Root, every object equal up to the number
+   normalisation [nn nreal] (a real may come back as an integer or a real; nothing else changes),
+   same number of objects.  Then the pages are enumerated identically and the table of contents of
+   d' is the same preorder. *)
+Theorem C17_reads_back_after_reload :
+  forall nreal d ops cid rid cat fuel2 d',
+    (forall r, (exists z, nreal r = OInt z) \/ (exists r', nreal r = OReal r')) ->
+    let b := add_all (fresh_bdoc d) ops in
+    let f := forest_of_ops (map sop_of ops) in
+    let m0 := d_max_id d in
+    f <> [] ->
+    max_id_bounds d ->
+    m0 + 1 + 2 * N.of_nat (fsize f) < U32_LIMIT ->
+    root_id d = Some cid ->
+    get_object_mut_id (d_objects d) cid = Some (rid, ODict cat) ->
+    no_name_trees cat ->
+    distinct_titles f -> scalar_titles f ->
+    too_deep f = false ->
+    (fsize f <= fuel2)%nat ->
+    exists b',
+      build_outline (default_fuel b) b = OOk (Some (m0 + 1, 0), b') /\
+      let d2 := attach (base b') cid (m0 + 1, 0) in
+      dict_get (d_trailer d') K_Root = dict_get (d_trailer d2) K_Root ->
+      (forall id, lookup (d_objects d') id = option_map (nn nreal) (lookup (d_objects d2) id)) ->
+      length (d_objects d') = length (d_objects d2) ->
+      targets_are_pages d2 f ->
+      get_pages d' = get_pages d2 /\ get_toc fuel2 d' = TOk (expected_toc d2 f) 0.
+Proof.
+  intros nreal d ops cid rid cat fuel2 d' H0 b f m0 H1 H2 H3 H4 H5 H6 H7 H8 H9 H10.
+  apply (reads_back_ops_reload nreal d ops cid rid cat fuel2 d'); try assumption.
+  apply N.ltb_ge. exact H9.
+Qed.
+
+(* number normalisation never changes the page enumeration of any document *)
+Theorem C17_pages_after_reload :
+  forall nreal, (forall r, (exists z, nreal r = OInt z) \/ (exists r', nreal r = OReal r')) ->
+  forall d d',
+    dict_get (d_trailer d') K_Root = dict_get (d_trailer d) K_Root ->
+    (forall id, lookup (d_objects d') id = option_map (nn nreal) (lookup (d_objects d) id)) ->
+    length (d_objects d') = length (d_objects d) ->
+    get_pages d' = get_pages d.
+Proof. exact get_pages_reload. Qed.
+
+(* the known class is inhabited and really fails: a chain of 258 bookmarks over a two-page document
+   meets every other hypothesis of (4), is built, and get_toc answers Err *)
+Theorem C17_too_deep_witness :
+  too_deep deep_forest = true /\
+  fheight deep_forest = 258%nat /\
+  deep_forest <> [] /\
+  distinct_titles deep_forest /\ scalar_titles deep_forest /\
+  targets_are_pages deep_final deep_forest /\
+  (exists b', build_outline (default_fuel (add_all (fresh_bdoc ex_doc) deep_ops)) (add_all (fresh_bdoc ex_doc) deep_ops)
+              = OOk (Some (5, 0), b') /\ attach (base b') (1, 0) (5, 0) = deep_final) /\
+  get_toc 1000 deep_final = TErr.
+Proof. exact deep_witness. Qed.
+
+(* no root bookmark: nothing is built, the document is unchanged *)
+Theorem C17_no_bookmark :
+  forall fuel b, bookmarks b = [] -> build_outline fuel b = OOk (None, b).
+Proof. exact build_outline_empty. Qed.
+
+(* non-vacuity: five calls (a non-ASCII title with an astral character, the empty title, an orphan)
+   over a two-page document meet every hypothesis of (4); the result is the expected four rows *)
+Theorem C17_example :
+  ex_forest <> [] /\
+  max_id_bounds ex_doc /\
+  d_max_id ex_doc + 1 + 2 * N.of_nat (fsize ex_forest) < U32_LIMIT /\
+  root_id ex_doc = Some (1, 0) /\
+  get_object_mut_id (d_objects ex_doc) (1, 0) = Some ((1, 0), ODict ex_cat) /\
+  no_name_trees ex_cat /\
+  distinct_titles ex_forest /\ scalar_titles ex_forest /\
+  N.of_nat (fheight ex_forest) <= OUTLINE_DEPTH_LIMIT + 1 /\
+  (fsize ex_forest <= 4)%nat /\
+  build_outline (default_fuel (add_all (fresh_bdoc ex_doc) ex_ops)) (add_all (fresh_bdoc ex_doc) ex_ops)
+    = OOk (Some (5, 0), ex_built) /\
+  targets_are_pages ex_final ex_forest /\
+  expected_toc ex_final ex_forest = ex_toc /\
+  get_toc 4 ex_final = TOk ex_toc 0.
+Proof. exact ex_hyps. Qed.
+
+Print Assumptions C17_forest_of_calls.
+Print Assumptions C17_orphans_ignored.
+Print Assumptions C17_outline_links_consistent.
+Print Assumptions C17_outline_ids_fresh.
+Print Assumptions C17_titles_and_dests.
+Print Assumptions C17_title_any_unicode.
+Print Assumptions C17_reads_back.
+Print Assumptions C17_reads_back_forest.
+Print Assumptions C17_reads_back_after_reload.
+Print Assumptions C17_pages_after_reload.
+Print Assumptions C17_too_deep_witness.
+Print Assumptions C17_no_bookmark.
+Print Assumptions C17_example.
